@@ -289,8 +289,11 @@ def shell_layer(ctx, text, conn):
                 out.seek(0), out.truncate()
                 sh.onecmd('.run ' + name)
                 got = out.getvalue()
-                closed = query.query_string.replace('FROM year >= 2019', 'FROM year >= 2019 CLOSE ON %s' % query.date.isoformat())
-                assert closed != query.query_string
+                if stmt.from_clause.close:
+                    closed = query.query_string        # the query names its own CLOSE: the directive's date must not replace it
+                else:
+                    closed = query.query_string.replace('FROM year >= 2019', 'FROM year >= 2019 CLOSE ON %s' % query.date.isoformat())
+                    assert closed != query.query_string
                 out.seek(0), out.truncate()
                 sh.onecmd(closed)
                 want = out.getvalue()
